@@ -66,6 +66,12 @@ def SarJudge (env : Env) (o : SarObs) : Prop :=
     else if o.reviewed then o.res = (env.sarO c (specOf o.attrs) o.time).res
     else ∃ t', sarCachedAt env c o t'
 
+/-- the cluster of `host` has a ready endpoint -/
+def ownReady (s : State) (host : Str) : Bool :=
+  match mgrGet s.mgr host with
+  | none => false
+  | some c => !(readyOf s c).isEmpty
+
 /-! ## executable versions -/
 
 def tokCachedAtB (env : Env) (c : Inst) (o : TokObs) (t' : Time) : Bool :=
